@@ -1,0 +1,21 @@
+//go:build verif
+
+package gtab
+
+import (
+	"seehuhn.de/go/sfnt/glyph"
+	"seehuhn.de/go/sfnt/opentype/gdef"
+)
+
+// Hooks for the C07 verification harness (add-only).
+
+// VerifC07StackLen returns the number of nested frames currently on the
+// context's stack.
+func (ctx *Context) VerifC07StackLen() int {
+	return len(ctx.stack)
+}
+
+// VerifC07Keep exposes newKeepFunc(meta, gdef).Keep(gid).
+func VerifC07Keep(meta *LookupMetaInfo, gdef *gdef.Table, gid glyph.ID) bool {
+	return newKeepFunc(meta, gdef).Keep(gid)
+}
